@@ -223,9 +223,29 @@ func (d *driver) divisions(r *ring.Ring, lvl int, values []*big.Int, toy bool) {
 	}
 }
 
+// guard runs f and returns the panic message, if any.
+func guard(f func()) (msg string) {
+	defer func() {
+		if r := recover(); r != nil {
+			msg = fmt.Sprint(r)
+		}
+	}()
+	f()
+	return
+}
+
 func (d *driver) basis(rq, rp *ring.Ring, lq, lp int, toy bool, count int) {
 	n := rq.N()
-	be := ring.NewBasisExtender(rq, rp)
+	be0 := ring.NewBasisExtender(rq, rp)
+	// every other chunk runs on a ShallowCopy of the extender (same contract)
+	turn := 0
+	pick := func() *ring.BasisExtender {
+		turn++
+		if turn%2 == 0 {
+			return be0.ShallowCopy()
+		}
+		return be0
+	}
 	qs := rq.ModuliChain()[:lq+1]
 	ps := rp.ModuliChain()[:lp+1]
 	Q, P := prod(qs), prod(ps)
@@ -249,10 +269,16 @@ func (d *driver) basis(rq, rp *ring.Ring, lq, lp int, toy bool, count int) {
 		for _, xs := range chunk(vals, n) {
 			pin := polyFromInts(rs.AtLevel(ls), xs)
 			pout := rd.AtLevel(ld).NewPoly()
-			if dir == 0 {
-				be.ModUpQtoP(lq, lp, pin, pout)
-			} else {
-				be.ModUpPtoQ(lp, lq, pin, pout)
+			be := pick()
+			if msg := guard(func() {
+				if dir == 0 {
+					be.ModUpQtoP(lq, lp, pin, pout)
+				} else {
+					be.ModUpPtoQ(lp, lq, pin, pout)
+				}
+			}); msg != "" {
+				d.emit(ev{"ev": "crash", "what": fmt.Sprintf("ModUp dir=%d lq=%d lp=%d shallow=%v", dir, lq, lp, turn%2 == 0), "msg": msg})
+				continue
 			}
 			out := rows(pout, ld+1)
 			if toy {
@@ -319,22 +345,28 @@ func (d *driver) basis(rq, rp *ring.Ring, lq, lp int, toy bool, count int) {
 			pq := polyFromInts(rq.AtLevel(lq), xs)
 			pp := polyFromInts(rp.AtLevel(lp), xs)
 			var out [][]uint64
-			switch kind {
-			case "QPtoQ":
-				po := rq.AtLevel(lq).NewPoly()
-				be.ModDownQPtoQ(lq, lp, pq, pp, po)
-				out = rows(po, lq+1)
-			case "QPtoQNTT":
-				rq.AtLevel(lq).NTT(pq, pq)
-				rp.AtLevel(lp).NTT(pp, pp)
-				po := rq.AtLevel(lq).NewPoly()
-				be.ModDownQPtoQNTT(lq, lp, pq, pp, po)
-				rq.AtLevel(lq).INTT(po, po)
-				out = rows(po, lq+1)
-			case "QPtoP":
-				po := rp.AtLevel(lp).NewPoly()
-				be.ModDownQPtoP(lq, lp, pq, pp, po)
-				out = rows(po, lp+1)
+			be := pick()
+			if msg := guard(func() {
+				switch kind {
+				case "QPtoQ":
+					po := rq.AtLevel(lq).NewPoly()
+					be.ModDownQPtoQ(lq, lp, pq, pp, po)
+					out = rows(po, lq+1)
+				case "QPtoQNTT":
+					rq.AtLevel(lq).NTT(pq, pq)
+					rp.AtLevel(lp).NTT(pp, pp)
+					po := rq.AtLevel(lq).NewPoly()
+					be.ModDownQPtoQNTT(lq, lp, pq, pp, po)
+					rq.AtLevel(lq).INTT(po, po)
+					out = rows(po, lq+1)
+				case "QPtoP":
+					po := rp.AtLevel(lp).NewPoly()
+					be.ModDownQPtoP(lq, lp, pq, pp, po)
+					out = rows(po, lp+1)
+				}
+			}); msg != "" {
+				d.emit(ev{"ev": "crash", "what": fmt.Sprintf("ModDown%s lq=%d lp=%d shallow=%v", kind, lq, lp, turn%2 == 0), "msg": msg})
+				continue
 			}
 			if toy {
 				d.emit(ev{"ev": "moddown", "kind": kind, "qs": qs, "ps": ps, "x": ints(xs), "out": out})
